@@ -26,10 +26,14 @@ func c11MainFieldNotRecursive(p *Prog) *RuleResult {
 	cg := p.CallGraph()
 	var roots []*ssa.Function
 	seenRoot := map[*ssa.Function]bool{}
+	selfCall := false
 	for _, f := range withClosures(mf) {
 		if n := cg.Nodes[f]; n != nil {
 			for _, e := range n.Out {
 				c := e.Callee.Func
+				if c == mf {
+					selfCall = true
+				}
 				if p.InModule(c) && !seenRoot[c] && TopFunc(c) != mf {
 					seenRoot[c] = true
 					roots = append(roots, c)
@@ -48,6 +52,10 @@ func c11MainFieldNotRecursive(p *Prog) *RuleResult {
 	for _, tgt := range []*ssa.Function{ld, mf} {
 		r.Instances++
 		key := "loadAsMainField does not reach " + FuncName(tgt)
+		if tgt == mf && selfCall {
+			r.Fail(key, p.Pos(mf.Pos()), "loadAsMainField (or a closure inside it) calls loadAsMainField again: the main fields of the directory a main field points to are applied (Node applies main once and then only probes index files)")
+			continue
+		}
 		if _, ok := reach[tgt]; ok {
 			r.Fail(key, p.Pos(mf.Pos()), "call chain "+FuncName(mf)+" → "+chainTo(reach, tgt)+": the directory a main field points to is resolved as a package root again, so its own package.json main fields are applied (Node applies main once and then only probes index files)")
 		} else {
